@@ -12,6 +12,9 @@ import _ "unsafe"
 //go:linkname verifMapArm runtime.verifMapArm
 func verifMapArm(choices []uint16, def uint16, sizes []int32)
 
+//go:linkname verifMapArmAll runtime.verifMapArmAll
+func verifMapArmAll(def uint16)
+
 //go:linkname verifMapDisarm runtime.verifMapDisarm
 func verifMapDisarm() int
 
@@ -36,3 +39,10 @@ func Run(choices []uint16, def uint16, f func()) Trace {
 	}
 	return Trace{Iterations: n, Sizes: sizes}
 }
+
+// PinAll fixes the iteration start of EVERY goroutine's map iterations to def until Unpin: used by harnesses that own
+// the scheduler as well (one goroutine runs at a time), so that executions are reproducible.
+func PinAll(def uint16) { verifMapArmAll(def) }
+
+// Unpin ends PinAll / Run control.
+func Unpin() { verifMapDisarm() }
